@@ -8,6 +8,7 @@ from `/repo/lexer.go`) and the parser's flag computation.
 import Pongo.Model.Exec
 import Pongo.Model.ParseDoc
 import Pongo.Gen.LexTables
+import Pongo.Lemmas.Spaceless
 
 namespace Pongo.C15
 open Pongo
@@ -211,111 +212,13 @@ example : htmlOut false false b!"\n  a b \t" true false true true = b!"a b \t" :
 
 /-! ### spaceless -/
 
-/-- every candidate tag end splits the input: `acc ++ t = tag ++ rest` -/
-theorem lazyTagEnds_split (t acc : Bytes) :
-    ∀ p ∈ lazyTagEnds t acc, acc ++ t = p.1 ++ p.2 := by
-  induction t generalizing acc with
-  | nil => simp [lazyTagEnds]
-  | cons c t ih =>
-    intro p hp
-    unfold lazyTagEnds at hp
-    split at hp
-    · simp at hp
-    · split at hp
-      · rcases List.mem_cons.1 hp with h | h
-        · subst h; simp
-        · have := ih (acc ++ [c]) p h; simpa using this
-      · have := ih (acc ++ [c]) p hp; simpa using this
-
-/-- a successful match at a `<` rewrites `<` :: t to the same bytes minus one non-empty
-    run of whitespace that sits directly between a `>` and a `<` -/
-theorem spacelessMatchAt_shape (t rep rest : Bytes) (h : spacelessMatchAt t = some (rep, rest)) :
-    ∃ tag1 ws tag2, 0x3c :: t = tag1 ++ ws ++ tag2 ++ rest ∧ rep = tag1 ++ tag2 ∧
-      ws ≠ [] ∧ (∀ c ∈ ws, isWs c = true) := by
-  unfold spacelessMatchAt at h
-  obtain ⟨⟨tag1, r1⟩, hmem, hf⟩ := List.exists_of_findSome?_eq_some h
-  have e1 := lazyTagEnds_split t [0x3c] _ hmem
-  simp only at hf e1
-  split at hf
-  · cases hf
-  · rename_i hws
-    split at hf
-    · rename_i t2 hafter
-      split at hf
-      · rename_i tag2 rest2 tl hl
-        cases hf
-        have e2 := lazyTagEnds_split t2 [0x3c] (tag2, rest) (by rw [hl]; exact List.mem_cons_self)
-        simp only at e2
-        refine ⟨tag1, r1.takeWhile isWs, tag2, ?_, rfl, hws, ?_⟩
-        · have : r1 = r1.takeWhile isWs ++ r1.dropWhile isWs := (List.takeWhile_append_dropWhile).symm
-          simp only [List.singleton_append] at e1 e2
-          rw [e1]
-          conv => lhs; rw [this, hafter, e2]
-          simp
-        · intro c hc
-          have := List.all_takeWhile (p := isWs) (l := r1)
-          exact List.all_eq_true.1 this c hc
-      · cases hf
-    · cases hf
-
-/-- the non-whitespace bytes of a string -/
-def nonWs (s : Bytes) : Bytes := s.filter (fun c => !isWs c)
-
-theorem nonWs_of_ws (ws : Bytes) (h : ∀ c ∈ ws, isWs c = true) : nonWs ws = [] := by
-  simp only [nonWs, List.filter_eq_nil_iff]
-  intro c hc; simp [h c hc]
-
-/-- one pass deletes only whitespace: the result is a subsequence of the input with the
-    same non-whitespace bytes in the same order -/
-theorem spacelessPass_only_deletes_whitespace (fuel : Nat) (s : Bytes) :
-    (spacelessPass fuel s).Sublist s ∧ nonWs (spacelessPass fuel s) = nonWs s := by
-  induction fuel generalizing s with
-  | zero => simp [spacelessPass]
-  | succ n ih =>
-    cases s with
-    | nil => simp [spacelessPass]
-    | cons c t =>
-      unfold spacelessPass
-      split
-      · rename_i hc
-        have hc' : c = 0x3c := by simpa using hc
-        split
-        · rename_i rep rest hm
-          obtain ⟨tag1, ws, tag2, e, hrep, _, hws⟩ := spacelessMatchAt_shape t rep rest hm
-          subst hrep hc'
-          rw [e]
-          obtain ⟨ihs, ihn⟩ := ih rest
-          constructor
-          · have h1 : (tag1 ++ tag2).Sublist (tag1 ++ ws ++ tag2) := by
-              rw [List.append_assoc]
-              exact List.Sublist.append (List.Sublist.refl _) (List.sublist_append_right _ _)
-            exact List.Sublist.append h1 ihs
-          · simp only [nonWs, List.filter_append] at ihn ⊢
-            have := nonWs_of_ws ws hws
-            simp only [nonWs] at this
-            rw [this, ihn]; simp
-        · obtain ⟨ihs, ihn⟩ := ih t
-          exact ⟨List.Sublist.cons_cons _ ihs, by simp only [nonWs, List.filter_cons] at ihn ⊢; rw [ihn]⟩
-      · obtain ⟨ihs, ihn⟩ := ih t
-        exact ⟨List.Sublist.cons_cons _ ihs, by simp only [nonWs, List.filter_cons] at ihn ⊢; rw [ihn]⟩
-
-theorem spacelessFix_only_deletes_whitespace (fuel : Nat) (s : Bytes) :
-    (spacelessFix fuel s).Sublist s ∧ nonWs (spacelessFix fuel s) = nonWs s := by
-  induction fuel generalizing s with
-  | zero => simp [spacelessFix]
-  | succ n ih =>
-    unfold spacelessFix
-    simp only
-    split
-    · exact ⟨List.Sublist.refl _, rfl⟩
-    · obtain ⟨h1, h2⟩ := ih (spacelessPass (s.length + 1) s)
-      obtain ⟨p1, p2⟩ := spacelessPass_only_deletes_whitespace (s.length + 1) s
-      exact ⟨h1.trans p1, h2.trans p2⟩
+-- (helper lemmas: `Lemmas/Spaceless.lean`; the same statement carries `spaceless` into the
+-- autoescape invariant of C02)
 
 /-- **`spaceless` deletes nothing but whitespace**, for every rendered body -/
 theorem spaceless_only_deletes_whitespace (s : Bytes) :
     (spaceless s).Sublist s ∧ nonWs (spaceless s) = nonWs s :=
-  spacelessFix_only_deletes_whitespace _ _
+  Pongo.spacelessFix_only_deletes_whitespace _ _
 
 theorem spacelessFix_fixpoint (fuel : Nat) (s : Bytes) (h : s.length < fuel) :
     spacelessPass ((spacelessFix fuel s).length + 1) (spacelessFix fuel s) = spacelessFix fuel s := by
